@@ -129,6 +129,12 @@ def body(chk: check.Check):
                         chk.violation('simulate:value', dict(formula=exprreplay.describe(rec), point=p, row=r_, got=g, want=w,
                                                              side_by_side=len(batch)), match=dict(kind='value', features=[]))
     chk.extra['operator_slot_child_triples_covered'] = len(pairs)
+    # vacuity: every operator class of the alphabets occurs in at least one replayed formula
+    wanted = {o.replace('bioMultSum3', 'bioMultSum') for o in pool1.unops + pool1.binops + pool1.naryops}
+    missing = sorted(wanted - {p[0] for p in pairs})
+    chk.extra['operator_classes_covered'] = sorted({p[0] for p in pairs})
+    if missing:
+        raise tlc.MachineryError(f'operator classes never generated: {missing}')
 
     # ---------------------------------------------------------------- (C) traces
     ntr = 400 if quick else 4000
